@@ -3,6 +3,7 @@ import TsVerif.Common.Tree
 import TsVerif.C17.Judge
 import TsVerif.C17.Merge
 import TsVerif.C17.MergeMulti
+import TsVerif.C17.Intersect
 /-!
 Driver for C17.  Reads the case stream written by `harness/src/bin/c17` and prints one line per case:
 
@@ -36,6 +37,9 @@ structure St where
   caps : List Cap := []
   defs : Array LayerDef := #[]
   top : List Nat := []
+  irTotal : Nat := 0
+  irBad : Nat := 0
+  irReal : Nat := 0
 
 def unhx (s : String) : Bytes := if s == "-" then [] else unhexBytes s
 
@@ -151,6 +155,23 @@ def parseRCaps (s : String) : List RCap :=
       some { s := natOf a, e := natOf b, node := natOf nd, kind := kind }
     | _ => none
 
+def parseRg (t : String) : Option Rg :=
+  match t.splitOn "-" with
+  | [a, b] => some (natOf a, natOf b)
+  | _ => none
+
+def parseRgs (s : String) : List Rg := if s == "-" then [] else (s.splitOn ",").filterMap parseRg
+
+def parseINodes (s : String) : List INode :=
+  (s.splitOn ";").filterMap fun t =>
+    match (t.splitOn ":").filterMap parseRg with
+    | nd :: ch => some { s := nd.1, e := nd.2, children := ch }
+    | [] => none
+
+/-- one `ir` line: does the port of `intersect_ranges` give the ranges the harness used? -/
+def irEqual (incl parents nodes result : String) : Bool :=
+  decide (intersectRanges (parseRgs parents) (parseINodes nodes) (incl == "1") = parseRgs result)
+
 /-- `run mmerge`: the multi-layer merge model against the real event stream. -/
 def runMMerge (s : St) : String :=
   let n := s.src.length
@@ -159,7 +180,7 @@ def runMMerge (s : St) : String :=
   let corr := if decide (m = s.evs) then "ok" else "DIFF"
   let wf := judgeEvents n s.evs
   let maxd := defs.foldl (fun a d => max a d.depth) 0
-  s!"{s.id} kind=N corr={corr} defsin={if defsIn n defs then 1 else 0} fin={if fin then 1 else 0} wf={if wf then "ok" else "FAIL"} nlayers={defs.length} maxlayerdepth={maxd} ncaps={totalCaps defs} depth={maxDepth s.evs} err={s.err}"
+  s!"{s.id} kind=N corr={corr} defsin={if defsIn n defs then 1 else 0} refsup={if refsUp defs then 1 else 0} fin={if fin then 1 else 0} wf={if wf then "ok" else "FAIL"} nlayers={defs.length} maxlayerdepth={maxd} ncaps={totalCaps defs} depth={maxDepth s.evs} ir={s.irTotal} irreal={s.irReal} irbad={s.irBad} err={s.err}"
 
 /-- `run merge`: the single-layer merge model against the real event stream. -/
 def runMerge (s : St) : String :=
@@ -191,6 +212,12 @@ def step (s : St) (line : String) : IO St := do
   | ["run", "merge"] => IO.println (runMerge s); return s
   | ["layer", _, d, c] => return { s with defs := s.defs.push { depth := natOf d, caps := parseRCaps c } }
   | ["top", t] => return { s with top := parseNats t }
+  | ["ir", incl, ps, ns, res, real] =>
+    -- with the re-export hook: the REAL private intersect_ranges' answer as well
+    let ok := irEqual incl ps ns res && irEqual incl ps ns real
+    return { s with irTotal := s.irTotal + 1, irReal := s.irReal + 1, irBad := s.irBad + (if ok then 0 else 1) }
+  | ["ir", incl, ps, ns, res] =>
+    return { s with irTotal := s.irTotal + 1, irBad := s.irBad + (if irEqual incl ps ns res then 0 else 1) }
   | ["run", "mmerge"] => IO.println (runMMerge s); return s
   | _ => return s
 
